@@ -53,6 +53,26 @@ class DecisionSource:
         self.made.append([wid, q])
         return wid, q
 
+    def decide_after_write(self, others, self_id, p):
+        """Right after a statement that writes to possibly shared memory: with probability ``p`` hand the
+        baton to another worker for a long stretch.  Returns (worker id, quantum); the worker's own id
+        means "carry on".  Recorded in the same decision list, so that a replay takes the same turns."""
+        others = sorted(others)
+        if self.replay is not None:
+            wid, q = self_id, -1
+            if self.pos < len(self.replay):
+                wid, q = self.replay[self.pos]
+                self.pos += 1
+                if wid != self_id and wid not in others:
+                    wid, q = self_id, -1
+        elif self.rng.random() < p:
+            wid = others[self.rng.randrange(len(others))]
+            q = self.rng.choice([500, INF_QUANTUM, INF_QUANTUM])
+        else:
+            wid, q = self_id, -1
+        self.made.append([wid, q])
+        return wid, q
+
 
 class Worker:
     def __init__(self, wid):
@@ -67,10 +87,11 @@ class Worker:
         self.thread = None
         self.cancel_at = None
         self.error = None
+        self.pending_writes = {}  # id(frame) -> (first, last) line of a shared-write statement in flight
 
 
 class Scheduler:
-    def __init__(self, decisions: DecisionSource, is_traced_code, log, step_cap=400_000):
+    def __init__(self, decisions: DecisionSource, is_traced_code, log, step_cap=400_000, write_sites=None, write_p=0.0):
         self.decisions = decisions
         self.is_traced_code = is_traced_code
         self.log = log  # list of event tuples
@@ -85,6 +106,13 @@ class Scheduler:
         self.preempt_sites: dict = {}
         self.overlap_probe = {"two_workers_inside_lcm": 0, "mutex_contention": 0, "preempted_in_jit": 0}
         self.jit_depth_by_worker: dict = {}
+        # pre-emption right after statements that write to possibly shared memory (sharedwrites.py)
+        self.write_sites = write_sites or {}
+        self.write_p = write_p
+        self._code_sites: dict = {}
+        self.overlap_probe["shared_write_statements_executed"] = 0
+        self.overlap_probe["preempted_after_shared_write"] = 0
+        self.overlap_probe["preempted_before_shared_write"] = 0
 
     # ------------------------------------------------------------------ thread identity
     def current(self) -> Worker | None:
@@ -103,8 +131,52 @@ class Scheduler:
 
     def _local_trace(self, frame, event, arg):  # noqa: ARG002
         if event == "line":
+            if self.write_sites:
+                self._after_write_check(frame, frame.f_lineno)
             self.on_line(frame)
+        elif event == "return" and self.write_sites:
+            self._after_write_check(frame, -1)
         return self._local_trace
+
+    def _after_write_check(self, frame, lineno):
+        w = self.by_thread.get(threading.get_ident())
+        if w is None:
+            return
+        fid = id(frame)
+        rng_ = w.pending_writes.get(fid)
+        if rng_ is not None and not (rng_[0] <= lineno <= rng_[1]):
+            del w.pending_writes[fid]
+            self._post_write(w, frame)
+        if lineno < 0:
+            return
+        code = frame.f_code
+        sites = self._code_sites.get(code)
+        if sites is None:
+            import os
+
+            sites = self.write_sites.get(os.path.realpath(code.co_filename)) or False
+            self._code_sites[code] = sites
+        if sites:
+            hit = sites.get(lineno)
+            if hit is not None and fid not in w.pending_writes:
+                w.pending_writes[fid] = hit
+                self.overlap_probe["shared_write_statements_executed"] += 1
+                # also right BEFORE the write: the check that led here may be stale by the time it acts
+                self._post_write(w, frame, before=True)
+
+    def _post_write(self, w, frame, before=False):
+        if self.write_p <= 0 or len(self.workers) < 2:
+            return
+        others = self._runnable(exclude=w)
+        if not others:
+            return
+        wid, q = self.decisions.decide_after_write(others, w.id, self.write_p * (0.5 if before else 1.0))
+        if wid == w.id:
+            return
+        nxt = self.workers[wid]
+        nxt.quantum = q
+        self.overlap_probe["preempted_before_shared_write" if before else "preempted_after_shared_write"] += 1
+        self._handover(w, nxt, site=(frame.f_code.co_name + ("+bw" if before else "+w"), frame.f_lineno))
 
     def on_line(self, frame):
         w = self.by_thread.get(threading.get_ident())
@@ -152,6 +224,9 @@ class Scheduler:
         nxt.quantum = q
         if nxt is w:
             return
+        self._handover(w, nxt, site)
+
+    def _handover(self, w: Worker, nxt: Worker, site=None):
         self.switches += 1
         if site is not None:
             key = f"{site[0]}:{site[1]}"
